@@ -116,8 +116,8 @@ Qed.
 Definition ex_src : list Z := s_of "permit(
  /* é */ ""é"" // x
 );"%string.
-Definition ex_r1 := {| r_rest := ex_src; r_sched := []; r_eof_with_data := false |}.
-Definition ex_r2 := {| r_rest := ex_src; r_sched := flat_map (fun _ => [(1%nat, false); (0%nat, false)]) ex_src; r_eof_with_data := true |}.
+Definition ex_r1 := {| r_rest := ex_src; r_sched := []; r_eof_with_data := false; r_fail_mode := FSticky |}.
+Definition ex_r2 := {| r_rest := ex_src; r_sched := flat_map (fun _ => [(1%nat, false); (0%nat, false)]) ex_src; r_eof_with_data := true; r_fail_mode := FSticky |}.
 Example ex_nonvacuous :
   no_fail ex_r1 /\ no_fail ex_r2 /\
   (exists ts, tokenize 100 1024 ex_r1 = Some (Some ts) /\ tokenize 100 4 ex_r2 = Some (Some ts) /\ List.length ts = 6%nat).
